@@ -76,7 +76,15 @@ def make(c_sys, typ, stacked, m=None, **kw):
         m = stacked.size // (n * n) if m is None else m
         if mshape is not None:
             kw["shape"] = tuple(mshape)  # explicit (multi-axis) outcome layout
-        return MProcess(c_sys, [_rep(stacked[i * n * n : (i + 1) * n * n].reshape(n, n).copy(), "mprocess") for i in range(m)], **kw)
+        hss = [_rep(stacked[i * n * n : (i + 1) * n * n].reshape(n, n).copy(), "mprocess") for i in range(m)]
+        from harness import reps
+
+        h = reps.pick(("hss", stacked.tobytes()), 5) if reps._on() else 0
+        if h == 3:
+            hss = tuple(hss)
+        elif h == 4:
+            hss = np.array([np.array(x) for x in hss])  # one 3-d array (m, d^2, d^2) instead of a list of matrices
+        return MProcess(c_sys, hss, **kw)
     raise ValueError(typ)
 
 
